@@ -730,6 +730,8 @@ def coq_expr(e):
 def coq_list(xs):
     return '[' + '; '.join(xs) + ']'
 def coq_nats(xs):
+    if not xs:
+        return '(@nil nat)'
     return '[' + '; '.join('%d%%nat' % x for x in xs) + ']'
 def coq_bools(xs):
     return '[' + '; '.join('true' if x else 'false' for x in xs) + ']'
